@@ -227,7 +227,8 @@ theorem runClosures_frame {τ ω : Type} (scripts : HId → Scripts ω) (kind : 
     (runClosures scripts kind who see apply src hs s u).1.payloads = s.payloads ∧
     (runClosures scripts kind who see apply src hs s u).1.vm = s.vm ∧
     (runClosures scripts kind who see apply src hs s u).1.descs = s.descs ∧
-    (runClosures scripts kind who see apply src hs s u).1.ord = s.ord := by
+    (runClosures scripts kind who see apply src hs s u).1.ord = s.ord ∧
+    (runClosures scripts kind who see apply src hs s u).1.fault = s.fault := by
   induction hs generalizing s u with
   | nil => simp [runClosures]
   | cons h hs ih =>
